@@ -97,6 +97,10 @@ func (x *Exec) assumeWellTyped(st *State, v Val) {
 			app("<=", "0", app("sl_off", v.T)), app("<=", "0", app("sl_arr", v.T)), app("<", app("sl_arr", v.T), st.nextref),
 			app("<", app("sl_cap", v.T), two63),
 			implies(app("=", app("sl_arr", v.T), "0"), app("=", app("sl_cap", v.T), "0"))))
+		// an object never exceeds MaxInt bytes (runtime: make and append panic otherwise)
+		if sz := staticSize(u.Elem()); sz >= 2 {
+			st.assume(app("<=", app("*", fmt.Sprint(sz), app("sl_cap", v.T)), "9223372036854775807"))
+		}
 	case *types.Struct:
 		if isTimeTime(t) || u.NumFields() == 0 {
 			return
@@ -108,6 +112,49 @@ func (x *Exec) assumeWellTyped(st *State, v Val) {
 	case *types.Pointer, *types.Map, *types.Chan:
 		st.assume(and(app("<=", "0", v.T), app("<", v.T, st.nextref)))
 	}
+}
+
+// staticSize is the size in bytes of a value of type t on a 64-bit platform, 0 if unknown
+// (type parameters) or zero.
+func staticSize(t types.Type) (sz int64) {
+	defer func() {
+		if recover() != nil {
+			sz = 0
+		}
+	}()
+	if hasTypeParam(t, map[types.Type]bool{}) {
+		return 0
+	}
+	return types.SizesFor("gc", "amd64").Sizeof(t)
+}
+
+func hasTypeParam(t types.Type, seen map[types.Type]bool) bool {
+	if seen[t] {
+		return false
+	}
+	seen[t] = true
+	switch u := types.Unalias(t).(type) {
+	case *types.TypeParam:
+		return true
+	case *types.Named:
+		if ta := u.TypeArgs(); ta != nil {
+			for i := 0; i < ta.Len(); i++ {
+				if hasTypeParam(ta.At(i), seen) {
+					return true
+				}
+			}
+		}
+		return hasTypeParam(u.Underlying(), seen)
+	case *types.Struct:
+		for i := 0; i < u.NumFields(); i++ {
+			if hasTypeParam(u.Field(i).Type(), seen) {
+				return true
+			}
+		}
+	case *types.Array:
+		return hasTypeParam(u.Elem(), seen)
+	}
+	return false
 }
 
 // ------------------------------------------------------------------ heap
